@@ -27,9 +27,16 @@ def href(spec):
 def dval(d):
     """declared default as a python value (array defaults are kept as tuples in the hashable spec, the dictionary
     a nested hybrid field declares as its default as a tuple of (name, value) pairs)"""
+    if is_factory(d):
+        return dval(d[1])
     if isinstance(d, tuple) and d and isinstance(d[0], tuple) and isinstance(d[0][0], str):
         return {k: dval(x) for k, x in d}
     return list(d) if isinstance(d, tuple) else d
+
+
+def is_factory(d):
+    """("@factory", value): the field declares a default FACTORY returning that plain value"""
+    return isinstance(d, tuple) and len(d) == 2 and d[0] == "@factory"
 
 
 def is_h(x):
@@ -55,7 +62,10 @@ def build_h(spec):
             c = xo.Ref(build_h(ft[1])._XoStruct)
         else:
             c = tg.build(ft)
-        xof[fn] = c if dflt is None else xo.Field(c, default=dval(dflt))
+        if is_factory(dflt):
+            xof[fn] = xo.Field(c, default_factory=(lambda x=dflt: dval(x)))
+        else:
+            xof[fn] = c if dflt is None else xo.Field(c, default=dval(dflt))
     data = {"_xofields": xof}
     if rename:
         data["_rename"] = dict(rename)
@@ -212,6 +222,10 @@ def catalogue(tier="quick"):
         H("HK", [("v", arr(f64, [None]), (1.0, 1.0, 1.0)), ("w", arr(i16, [None]), (2, 2)), ("c", f64, 4.0), ("t", STR)], rename=[("w", "ww")]),
         # a class derived from another hybrid class (BASE_OF), with its own fields and declared defaults
         H("HVder", [("n", i64, 2), ("x", f64), ("y", f64, 0.5)]),
+        # a nested hybrid class that holds a reference (the nested part is assigned from another buffer with the reference bound)
+        H("HN", [("mid", H("MidR", [("r", href(inn)), ("k", i32)])), ("n", i32, 6)]),
+        # default factories returning plain data (a list for a static array, a number)
+        H("HFa", [("v", arr(f64, [3]), ("@factory", (1.0, 2.0, 3.0))), ("n", i32, ("@factory", 4)), ("s", STR), ("u", f64, 0.25)]),
         # a nested hybrid field that declares its OWN default (M11-C19: a nested object equal to the defaults of the
         # nested class is not equal to the default of the field)
         H("HP", [("n", i32), ("plain", stat), ("preset", stat, (("x", 5.0), ("y", 4), ("v", (1.0, 2.0, 0.0))))], rename=[("preset", "pre")]),
